@@ -45,6 +45,8 @@ func viewTypes() []*dg.UserType {
 // (stream "corpus"): they must now end in an accepted design or reported errors, and a
 // crash / an accepted dangling reference is a fresh VIOLATION with this replay.
 var repaired = map[string]bool{
+	"generate-panic:codegen/cli.jsonExample:index":             true,
+	"generate-panic:expr.(*Array).MakeSlice:reflect":           true,
 	"dangling-tag-accepted":                                   true,
 	"dangling-required-under-map-accepted":                    true,
 	"panic:expr.(*HTTPResponseExpr).Validate.func1:nil-deref": true,
